@@ -129,6 +129,13 @@ impl NavigationState {
         
     }
 
+    /// Forget everything that is tied to the current expression, including the place markers.
+    /// This should be called when a new expression is set (the ids the place markers refer to are gone).
+    pub fn reset_for_new_expression(&mut self) {
+        self.reset();
+        self.place_markers = Default::default();
+    }
+
 
     // defining reset_start_time because of the following message if done inline
     // attributes on expressions are experimental
